@@ -182,21 +182,10 @@ public:
 	*/
 	Matrix3_ operator*(const Matrix3_& B) const
 	{
-		int i, j, k;
 		Matrix3_ C;
-		const Matrix3_& A = *this;
-		T ab;
-
-		for(i=0; i<3; i++)
-		{
-			for(j=0; j<3; j++)
-			{
-				for(ab=0, k=0; k<2; k++)
-					ab += A(i,k)*B(k,j);
-				C(i,j) = ab;
-	  		}
-			C(i,2) += A(i,2);
-		}
+		for (int i = 0; i < 3; i++)
+			for (int j = 0; j < 3; j++)
+				C(i, j) = a[i][0] * B(0, j) + a[i][1] * B(1, j) + a[i][2] * B(2, j);
 		return C;
 	}
 	/**
